@@ -4,3 +4,4 @@ import PelGen.GenSections
 import PelGen.GenIoDrawer
 import PelGen.GenUserData
 import PelGen.GenDispatch
+import PelGen.GenSrc
